@@ -199,7 +199,13 @@ def run_check(tier, seed):
         samples = []
         for k in range(nprog):
             nprocs = rng.choice([1, 2, 2, 3, 4] if tier == 'thorough' else [1, 2, 2, 3])
-            p = apigen.gen_rw_program(rng, 'c01_%d.nc' % k, nprocs)
+            if nprocs >= 2 and k % 3 == 2:
+                # every fourth multi-rank program goes through the intra-node aggregation write path (a second implementation of
+                # request flattening / merging that only runs with this hint), with larger strided collective writes
+                p = apigen.gen_rw_program(rng, 'c01_%d.nc' % k, nprocs, hints='nc_num_aggrs_per_node=%d' % rng.range(1, nprocs - 1), big=True)
+                p.tags.add('intra-node-aggregation')
+            else:
+                p = apigen.gen_rw_program(rng, 'c01_%d.nc' % k, nprocs)
             text = p.text()
             rc, impl, spec, err = apicmp.run_both(exe, text, nprocs, wd, tag='p%d' % k)
             mism = apicmp.compare(spec, impl)
